@@ -158,7 +158,11 @@ func (h *Header) TakeFrom(src []byte) ([]byte, error) {
 		return nil, err
 	}
 
-	wantedSize := int(h.archiveCount * archiveInfoListSize)
+	// NOTE: archiveCount * archiveInfoListSize overflows uint32 for a large archiveCount.
+	if uint64(h.archiveCount)*archiveInfoListSize > math.MaxInt32 {
+		return nil, errors.New("too many archives")
+	}
+	wantedSize := int(h.archiveCount) * archiveInfoListSize
 	if len(src) < wantedSize {
 		return nil, &WantLargerBufferError{WantedBufSize: metaSize + wantedSize}
 	}
